@@ -311,3 +311,131 @@ func TestRandomPrograms(t *testing.T) {
 		pk.Judge(rt, c, checkCancel(c))
 	})
 }
+
+// ---------------------------------------------------------------------------------------------
+// Cancellation that does not coincide with a poll: the host cancels before main is started, or while it
+// handles a write of the program (the writing core is then between two polls and may still spawn).
+
+type HostCancelCase struct {
+	Prog    string
+	Text    string
+	Backend string
+	Mode    string // before-start | at-write
+	N       int    // at-write: the n-th write
+	Cores   int
+	Endless bool
+}
+
+func checkHostCancel(c HostCancelCase) *pk.Failure {
+	req := &sb.Request{Op: "run", Modules: map[string]string{"main": c.Text}, Entry: "main", Backends: []string{c.Backend},
+		Limits: sb.DefaultLimits(), PollCap: 200000}
+	if c.Endless {
+		req.PollCap = endlessCap // a program that never writes n times is stopped like in the sweep
+	}
+	if c.Mode == "before-start" {
+		req.CancelBeforeStart = true
+	} else {
+		req.CancelAtWrite = c.N
+	}
+	resp := px.Pool().Exec(req)
+	id := fmt.Sprintf("%s on %s, host cancels %s %d", c.Prog, c.Backend, c.Mode, c.N)
+	if f := px.SandboxFailure("hostcancel", resp); f != nil {
+		f.Sig = c.Backend + " " + c.Mode + " " + f.Sig
+		f.Msg = id + "\n" + c.Text + "\n" + f.Msg
+		return f
+	}
+	if resp.Inconclusive {
+		pk.Inconclusive()
+		return nil
+	}
+	if !resp.Accepted {
+		return pk.Failf("hostcancel", "program-rejected", "%s: program rejected", id)
+	}
+	r := resp.Run(c.Backend)
+	if r == nil || r.InitPanic != "" || r.CompileErr != "" {
+		return pk.Failf("hostcancel", "init", "%s: %+v", id, r)
+	}
+	switch {
+	case c.Mode == "before-start":
+		// nothing of the program has run yet: it cannot have "finished first"
+		if r.Outcome.Class != "terminated" {
+			return pk.Failf("hostcancel", c.Backend+" before-start:"+r.Outcome.Class, "%s: the context was cancelled before main was started, the outcome is %+v with output %q\n%s", id, r.Outcome, r.Writes, c.Text)
+		}
+	case len(r.Writes) >= c.N && (c.Endless || r.Outcome.Class == "terminated"):
+		if r.Outcome.Class != "terminated" {
+			return pk.Failf("hostcancel", c.Backend+" at-write:"+r.Outcome.Class, "%s: an endless program ended with %+v\n%s", id, r.Outcome, c.Text)
+		}
+		// between the cancelling write and the next poll a core executes at most one quantum
+		if r.WritesAfterCancel > 60*c.Cores {
+			return pk.Failf("hostcancel", c.Backend+" writes-after-cancel", "%s: %d writes after the cancellation\n%s", id, r.WritesAfterCancel, c.Text)
+		}
+		pk.Class("hostcancel:terminated")
+	default:
+		pk.Class("hostcancel:finished-first")
+	}
+	if c.Backend == "vm" && !r.Residue.LockFree {
+		return pk.Failf("hostcancel", "vm lock-held", "%s: the cores lock is still held\n%s", id, c.Text)
+	}
+	if r.GoroutinesAfter > r.GoroutinesBefore {
+		return pk.Failf("hostcancel", c.Backend+" goroutines-left", "%s: %d goroutines before, %d after return\n%s", id, r.GoroutinesBefore, r.GoroutinesAfter, c.Text)
+	}
+	return nil
+}
+
+func init() { pk.Reg("hostcancel", checkHostCancel) }
+
+// programs in which a write is followed - within the same quantum - by spawns and the end of the writer
+var hostCancelProgs = []Prog{
+	{Name: "write-then-spawn-then-end", Text: `fn w(n: int) { println("w", n); }
+fn main() { println("go"); spawn w(1); }`, VMOnly: true, Cores: 2},
+	{Name: "write-then-two-spawns", Text: `fn w(n: int) { let i = 0; while i < 100 { i += 1; } println("w", n); }
+fn main() { println("go"); spawn w(1); spawn w(2); println("main done"); }`, VMOnly: true, Cores: 3},
+	{Name: "thread-writes-then-spawns", Text: `fn leaf(n: int) { println("leaf", n); }
+fn mid(n: int) { println("mid", n); spawn leaf(n); }
+fn main() { spawn mid(1); spawn mid(2); }`, VMOnly: true, Cores: 5},
+	{Name: "relay-printing-every-step", Text: `fn relay(n: int) { println("r", n); spawn relay(n + 1); }
+fn main() { spawn relay(1); }`, VMOnly: true, Cores: 2, Endless: true},
+	{Name: "write-in-loop", Text: `fn main() { let i = 0; loop { i += 1; println("tick", i); } }`, Cores: 1, Endless: true},
+	{Name: "write-then-sleep", Text: `fn main() { println("a"); time.sleep(0.03); println("b"); }`, Cores: 1},
+	{Name: "write-in-handler", Text: `fn main() { try { throw("x"); } catch e { println("h"); let i = 0; loop { i += 1; } } }`, Cores: 1, Endless: true},
+	{Name: "write-then-finish", Text: `fn main() { println("only"); }`, Cores: 1},
+}
+
+func TestTableHostCancel(t *testing.T) {
+	pk.SkipIfReplay(t)
+	col := pk.NewCollector()
+	var wg sync.WaitGroup
+	sem := make(chan struct{}, 16)
+	idx := 0
+	all := append(append([]Prog{}, progs...), hostCancelProgs...)
+	for _, p := range all {
+		for _, backend := range []string{"vm", "tree"} {
+			if p.VMOnly && backend == "tree" {
+				continue
+			}
+			var cases []HostCancelCase
+			cases = append(cases, HostCancelCase{Prog: p.Name, Text: p.Text, Backend: backend, Mode: "before-start", Cores: p.Cores, Endless: p.Endless})
+			for n := 1; n <= 4; n++ {
+				cases = append(cases, HostCancelCase{Prog: p.Name, Text: p.Text, Backend: backend, Mode: "at-write", N: n, Cores: p.Cores, Endless: p.Endless})
+			}
+			for _, c := range cases {
+				idx++
+				if !pk.Mine(idx) {
+					continue
+				}
+				wg.Add(1)
+				sem <- struct{}{}
+				go func(c HostCancelCase) {
+					defer wg.Done()
+					defer func() { <-sem }()
+					pk.Eval()
+					pk.NonTrivial(fmt.Sprintf("%s|%s|%s|%d", c.Prog, c.Backend, c.Mode, c.N), map[string]any{"program": c.Prog, "backend": c.Backend, "mode": c.Mode, "n": c.N})
+					col.Report(c, checkHostCancel(c))
+				}(c)
+			}
+		}
+	}
+	wg.Wait()
+	col.Done(t)
+	pk.Exhaustive("host-cancel-table")
+}
